@@ -116,4 +116,14 @@ func TestPropProgramsNoErrors(t *testing.T) {
 	})
 }
 
+func TestPropProgramsPadded(t *testing.T) {
+	// layouts with large line/column gaps: failure positions must still agree (saturated position-table deltas)
+	vk.Rapid(t, subProgram, vk.N(500, 4000), func(t *rapid.T) gen.Program {
+		p := gen.Generate(t, gen.Config{MaxStmts: 30, ErrRate: 0.04})
+		p.Src = gen.Pad(t, p.Src, vk.N(2000, 20000))
+		p.Features = append(p.Features, "padded")
+		return p
+	})
+}
+
 func TestReplay(t *testing.T) { vk.Replay(t) }
